@@ -67,23 +67,25 @@ impl Lexer {
         self.peek(0)
     }
 
-    /// Get the next character in the source.
+    /// Move on to the next character in the source.
     ///
-    /// This function will update the current character and the position
-    /// of the Lexer struct.
+    /// `row` and `col` always describe the character at `pos`: leaving a
+    /// newline starts the next row, leaving any other character moves one
+    /// column to the right.
     fn consume_char(&mut self) {
-        // Get the next character
-        if let Some(ch) = self.peek(1) {
-            // Update the position
-            if ch == '\n' {
+        match self.current() {
+            Some('\n') => {
                 self.row += 1;
                 self.col = 0;
-            } else {
-                self.col += 1;
+                self.pos += 1;
             }
-            self.pos += 1;
-        } else {
-            self.pos = self.source.len();
+            Some(_) => {
+                self.col += 1;
+                self.pos += 1;
+            }
+            None => {
+                self.pos = self.source.len();
+            }
         }
     }
 
@@ -135,20 +137,17 @@ impl Lexer {
 
     /// Get a range from the current character.
     ///
-    /// This function will return a range with the start and end position
-    /// being the current position of the lexer.
+    /// This function will return the range of a token that consists of the
+    /// current character only (ranges include their end position).
     fn get_range(&self) -> Range {
-        let mut end = self.get_pos();
-        end.increment_column();
-        Range::new(self.get_pos(), end)
+        Range::new(self.get_pos(), self.get_pos())
     }
 
     /// Get the current position of the lexer.
     ///
-    /// This function will return the current position of the lexer.
+    /// This function will return the position of the current character.
     fn get_pos(&self) -> Position {
-        let column = if self.col == 0 { 0 } else { self.col - 1 };
-        Position::new(self.row, column, self.pos)
+        Position::new(self.row, self.col, self.pos)
     }
 
     /// Lex a unicode escape code.
@@ -336,14 +335,14 @@ impl Iterator for Lexer {
                 let start = self.get_pos();
                 let mut dir_str: String = String::new();
 
+                // Stop *on* the last character of the directive, also when
+                // the file ends with it
                 while let Some(current) = self.current() {
                     dir_str.push(current);
-                    if let Some(next) = self.peek(1) {
-                        if !Self::is_symbol_char(next) {
-                            break;
-                        }
+                    match self.peek(1) {
+                        Some(next) if Self::is_symbol_char(next) => self.consume_char(),
+                        _ => break,
                     }
-                    self.consume_char();
                 }
 
                 let end = self.get_pos();
@@ -412,7 +411,6 @@ impl Iterator for Lexer {
 
                 let end = self.get_pos();
                 self.consume_char(); // Skip final '"'
-                self.consume_char();
 
                 Some(Token::new(
                     TokenType::String(string_str.clone()),
@@ -509,14 +507,14 @@ impl Iterator for Lexer {
                     }
                 }
 
+                // Stop *on* the last character of the symbol, also when the
+                // file ends with it
                 while let Some(current) = self.current() {
                     symbol_str.push(current);
-                    if let Some(next) = self.peek(1) {
-                        if !Self::is_symbol_item(next) {
-                            break;
-                        }
+                    match self.peek(1) {
+                        Some(next) if Self::is_symbol_item(next) => self.consume_char(),
+                        _ => break,
                     }
-                    self.consume_char();
                 }
 
                 // If the next char is ':', this is a label
